@@ -37,7 +37,7 @@ def mc_runs(ctx):
     if ctx.quick():
         runs = [("dead", dict(BASE, Q={"q1"}, MaxCid=3, MaxStim=3, Cap=2)),
                 ("two", dict(BASE, QD=set(), MaxCid=3, MaxStim=4)),
-                ("fixed", dict(BASE, Q={"q1"}, MaxCid=2, MaxStim=4, Fixed=ALLFIX))]
+                ("fixed", dict(BASE, Q={"q1"}, MaxCid=2, MaxStim=3, Fixed=ALLFIX))]
     else:
         runs = [("dead", dict(BASE, Q={"q1"}, MaxCid=3, MaxStim=5, Cap=2)),
                 ("two", dict(BASE, QD=set(), MaxCid=3, MaxStim=5)),
@@ -174,7 +174,7 @@ def cut_sweep(ctx, rnd):
 def scenarios(ctx, gen):
     rnd = random.Random(ctx.seed)
     out = []
-    reps = 2 if ctx.quick() else 8
+    reps = 3 if ctx.quick() else 8
     for name, a, b, steps in catalogue(ctx):
         for r in range(reps if "race" not in name else reps * (2 if ctx.quick() else 6)):
             lvl = r % 4 if "race" not in name else 3
